@@ -256,6 +256,14 @@ struct ChanIn : std::streambuf {
 // and once into the buffering end of a channel, from whose tied reading end the field is loaded without an explicit flush
 template <typename F> std::string dumpOf(const F & f) {
   std::ostringstream os; f.dump(os);
+  {   // formatting state pending on the stream (width, fill, adjustment, base) has no say in a binary dump
+    std::ostringstream ws; ws.width(13); ws.fill('*'); ws.setf(std::ios::left, std::ios::adjustfield); ws << std::hex << std::showbase << std::uppercase;
+    f.dump(ws);
+    if (ws.str() != os.str()) {
+      std::cerr << "Assertion `dump into a stream with pending width / fill writes the same bytes' failed: " << ws.str().size() << " vs " << os.str().size() << " bytes" << std::endl;
+      std::abort();
+    }
+  }
   {
     Channel ch; ChanOut ob(ch); ChanIn ib(ch); std::ostream out(&ob); std::istream in(&ib); in.tie(&out);
     std::string again; bool bad = false;
